@@ -134,3 +134,97 @@ def declare(reg):
         props=["C04"],
         ghost={"harness": "harness.flags:FlagHelpers"},
     )
+
+    # ---- trusted / assumed callees ------------------------------------------------
+    reg.contract("<stdlib>", "MH.aremove", params={"self": "ref:MH", "key": "int"},
+                 ensures={"removed": "self.g_keys == old(self.g_keys) - {key}"}, modifies=["self.g_keys"],
+                 trusted=True, yields=True, note="A-MH: mailbox.MH.remove deletes exactly that message file (asimap.mh.MH.aremove wraps it in a thread)")
+    reg.contract(P, "Mailbox._dispatch_or_pend_notifications",
+                 params={"self": "ref:Mailbox", "notifications": "str", "dont_notify": "opt[ref:Authenticated]"},
+                 modifies=["*.pending_notifications"], trusted=True, yields=True,
+                 note="assumed here (pushes or queues, touches only clients' pending_notifications); proved separately under C01")
+    reg.contract(P, "Mailbox.commit_to_db", params={"self": "ref:Mailbox"}, trusted=True, yields=True,
+                 note="assumed: writes the mailbox row to sqlite, changes no Mailbox field (C12 states its contract)")
+    reg.contract(
+        P, "Mailbox._rebuild_index_dicts", params={"self": "ref:Mailbox"},
+        requires={"distinct-keys": "distinct(self.msg_keys)", "distinct-uids": "distinct(self.uids)"},
+        ensures={"idx-keys": "index_of(self._msg_key_to_idx, self.msg_keys)", "idx-uids": "index_of(self._uid_to_idx, self.uids)"},
+        modifies=["self._msg_key_to_idx", "self._uid_to_idx"], uses_invariant=False,
+        props=["C03"],
+    )
+
+    # ---- expunge (C05, C03, C02, C13, C01) ---------------------------------------
+    reg.specfn("uid_at", "m: ref:Mailbox, k: int", "int", "m.uids[get(m._msg_key_to_idx, k)]", doc="UID paired with MH key k (k in the mailbox)")
+    reg.specfn(
+        "del_key", "m: ref:Mailbox, L: opt[list[int]], check_deleted: bool, k: int", "bool",
+        "k in m.msg_keys and ite(check_deleted, "
+        "  mem(m.sequences, 'Deleted', k) and (is_none(L) or uid_at(m, k) in some(L)), "
+        "  (not is_none(L)) and uid_at(m, k) in some(L))",
+        doc="the messages EXPUNGE / UID EXPUNGE / MOVE's forced expunge must remove -- straight from the property",
+    )
+    D = "old(del_key(self, uid_msg_set, check_deleted, k))"
+    main_inv = {
+        "len": "len(self.msg_keys) == len(self.uids) and len(self.msg_keys) == len(old(self.msg_keys)) - _i and self.num_msgs == old(self.num_msgs) - _i",
+        "asc-keys": "asc(self.msg_keys)",
+        "asc-uids": "asc(self.uids)",
+        "idx-stale": "self._msg_key_to_idx == old(self._msg_key_to_idx) and self._uid_to_idx == old(self._uid_to_idx)",
+        "seqs-untouched": "self.sequences == old(self.sequences)",
+        # positions below the original index of the last deleted key are untouched
+        "prefix": "forall(lambda j: implies(0 <= j and j < ite(_i == 0, len(old(self.msg_keys)), get(old(self._msg_key_to_idx), _it[_i - 1])), "
+                  "j < len(self.msg_keys) and self.msg_keys[j] == old(self.msg_keys)[j] and self.uids[j] == old(self.uids)[j]))",
+        "prefix-bound": "ite(_i == 0, len(old(self.msg_keys)), get(old(self._msg_key_to_idx), _it[_i - 1])) <= len(self.msg_keys)",
+        # every survivor keeps its UID
+        "pairing": "forall(lambda j: implies(0 <= j and j < len(self.msg_keys), self.msg_keys[j] in old(self.msg_keys) and "
+                   "self.uids[j] == old(self.uids)[get(old(self._msg_key_to_idx), self.msg_keys[j])]))",
+        "elems": "forall(lambda k: (k in self.msg_keys) == (k in old(self.msg_keys) and not (k in _it and pos(_it, k) < _i)))",
+        "disk": "self.mailbox.g_keys == old(self.mailbox.g_keys) - elems(_it) | (elems(_it) & elems(self.msg_keys) & old(self.mailbox.g_keys))",
+    }
+    reg.contract(
+        P, "Mailbox.expunge",
+        params={"self": "ref:Mailbox", "uid_msg_set": "opt[list[int]]", "check_deleted": "bool"},
+        requires={"distinct-uids-arg": "is_none(uid_msg_set) or distinct(some(uid_msg_set))",
+                  "disk-has-keys": "subset(elems(self.msg_keys), self.mailbox.g_keys)"},
+        ensures={
+            "keys": f"forall(lambda k: (k in self.msg_keys) == (k in old(self.msg_keys) and not {D}))",
+            "asc-keys": "asc(self.msg_keys)",
+            "asc-uids": "asc(self.uids)",
+            "len": "len(self.msg_keys) == len(self.uids) and self.num_msgs == len(self.msg_keys)",
+            "pairing": "forall(lambda k: implies(k in self.msg_keys, uid_of_key(self, k) == old(uid_of_key(self, k))))",
+            "idx-keys": "index_of(self._msg_key_to_idx, self.msg_keys)",
+            "idx-uids": "index_of(self._uid_to_idx, self.uids)",
+            "seqs": f"forall(lambda s, k: mem(self.sequences, s, k) == (mem(old(self.sequences), s, k) and not {D}), 'str', 'int')",
+            "disk": f"forall(lambda k: (k in self.mailbox.g_keys) == (k in old(self.mailbox.g_keys) and not {D}))",
+        },
+        modifies=["self.msg_keys", "self.uids", "self.num_msgs", "self.num_recent", "self._msg_key_to_idx", "self._uid_to_idx",
+                  "self.sequences", "self.optional_resync", "*.pending_notifications", "MH.g_keys"],
+        loops={
+            0: {"invariant": {
+                "picked": "forall(lambda k: (k in to_delete) == (k in self.msg_keys and uid_at(self, k) in some(uid_msg_set) and pos(some(uid_msg_set), uid_at(self, k)) < _i))",
+                "distinct": "distinct(to_delete)",
+            }},
+            1: {"lemmas": {
+                    "uid-injective": "forall(lambda a, b: implies(a in self.msg_keys and b in self.msg_keys and uid_at(self, a) == uid_at(self, b), a == b))",
+                    "todel-in-keys": "forall(lambda k: implies(k in to_delete, k in self.msg_keys))",
+                    "uids-of-todel": "len(uids_to_delete) == len(to_delete) and forall(lambda j: implies(0 <= j and j < len(to_delete), uids_to_delete[j] == uid_at(self, to_delete[j])))",
+                },
+                "invariant": {
+                "picked": "forall(lambda k: (k in new_to_delete) == (k in to_delete and uid_at(self, k) in some(uid_msg_set) and pos(some(uid_msg_set), uid_at(self, k)) < _i))",
+                "distinct": "distinct(new_to_delete)",
+            }},
+            2: {"invariant": main_inv},
+            3: {"invariant": {
+                "cleaned": "forall(lambda s, k: mem(self.sequences, s, k) == (mem(lpre(self.sequences), s, k) and not (k in to_delete and s in _it and pos(_it, s) < _i)), 'str', 'int')",
+                "dom": "dom(self.sequences) == dom(lpre(self.sequences))",
+            }},
+            4: {"invariant": {
+                "cleaned-inner": "forall(lambda s, k: mem(self.sequences, s, k) == (mem(lpre(self.sequences), s, k) and not (s == seq and k in to_delete and pos(to_delete, k) < _i)), 'str', 'int')",
+                "dom": "dom(self.sequences) == dom(lpre(self.sequences))",
+            }},
+        },
+        locals_={"to_delete": "list[int]", "uids_to_delete": "list[int]", "new_to_delete": "list[int]", "new_uids_to_delete": "list[int]"},
+        props=["C05", "C03", "C02", "C13"],
+        ghost={"harness": "harness.mboxops:Expunge"},
+    )
+    b = reg.properties.setdefault("C05", {}).setdefault("bounded", [])
+    b.append({"name": "expunge-real-folder", "module": "harness.mboxops", "func": "Expunge"})
+    b.append({"name": "uid-expunge-e2e", "module": "harness.e2e", "func": "UidExpunge"})
